@@ -23,16 +23,20 @@ import vf
 PID = "C18"
 TRACE_CFG = "SPECIFICATION Spec\nCONSTANTS\n  Relax = {%s}\nPOSTCONDITION Post\nCHECK_DEADLOCK FALSE\n"
 
-# relaxation -> predicate name (order = order of diagnosis)
+# diagnosis: (relaxations switched off together, predicate name), tried in this order
+WATCH_ALL = ("watch-order", "watch-listing", "watch-done", "read-after-event")
 RELAX = [
-    ("watch-order", "WatchOrdered"),
-    ("watch-listing", "WatchListingComplete"),
-    ("watch-done", "WatchComplete"),
-    ("read-after-event", "ReadAfterEventMonotone"),
-    ("read", "Linearizable-read"),
-    ("list", "Linearizable-list"),
-    ("listowner", "Linearizable-listowner"),
-    ("snapshot", "Linearizable-snapshot"),
+    (("watch-order-xrestore",), "WatchOrdered.pre-restore-event"),
+    (("watch-order-dup",), "WatchOrdered.repeated-or-stale-event"),
+    (("watch-order", "watch-done"), "WatchOrdered"),
+    (("watch-listing",), "WatchListingComplete"),
+    (("watch-done",), "WatchComplete"),
+    (("read-after-event",), "ReadAfterEventMonotone"),
+    (WATCH_ALL, "Watch.several"),
+    (WATCH_ALL + ("read",), "Linearizable-read"),
+    (WATCH_ALL + ("list",), "Linearizable-list"),
+    (WATCH_ALL + ("listowner",), "Linearizable-listowner"),
+    (WATCH_ALL + ("snapshot",), "Linearizable-snapshot"),
 ]
 DOC = {
     "Linearizable": "the recorded concurrent history of WriteCAS/DeleteCAS (+reads) has a linearization accepted by "
@@ -45,6 +49,10 @@ DOC = {
                             "the same uid; a write returns the uid it was given",
     "VersionsFresh": "one name never receives the same version from two writes",
     "WatchListingComplete": "the initial listing of a watch equals the matching part of the state at some position of the chosen log",
+    "WatchOrdered.pre-restore-event": "WatchOrdered, narrowed: the offending live event repeats a log entry from BEFORE a restore "
+                                      "that precedes the watcher's position (an event of the abandoned timeline)",
+    "WatchOrdered.repeated-or-stale-event": "WatchOrdered, narrowed: the offending live event repeats an entry at or before the "
+                                            "watcher's position in the same epoch",
     "WatchOrdered": "every live event is the next entry of its resource's log after the watcher's position: commit order, "
                     "nothing skipped, repeated or stale, never across a restore",
     "WatchComplete": "after the final (fence) writes the watcher has been told every event of every matching resource",
@@ -131,13 +139,25 @@ def validate(rows, timeout=900):
 
 
 def diagnose(events):
-    """Name the predicate a rejected history violates: first single relaxation that makes TLC accept it."""
+    """Name the predicate a rejected history violates: the first relaxation under which TLC accepts it.
+    (an accepting relaxed run has checked everything else in the history)"""
     for rl, name in RELAX:
-        _, _, alldone, _ = run_tlc(events, relax=(rl,))
+        _, _, alldone, _ = run_tlc(events, relax=rl)
         if alldone:
             return name
-    _, _, alldone, _ = run_tlc(events, relax=[x for x, _ in RELAX])
-    return "Linearizable" if not alldone else "several"
+    return "Linearizable"
+
+
+def confirm_unpruned(events, timeout=600):
+    """Safeguard against an unsound search reduction: re-decide a rejected history with the reductions
+    switched off (Relax "full-search" only removes pruning, it relaxes no check)."""
+    try:
+        _, _, alldone, _ = run_tlc(events, relax=("full-search",), timeout=timeout)
+    except vf.Infra as ex:
+        if "timeout" in str(ex):
+            return "timeout"
+        raise
+    return "accepted" if alldone else "rejected"
 
 
 def stuck_kind(ev, events):
